@@ -52,6 +52,16 @@ theorem acquireBody_eq (B : BusOps σ) : acquireBody B = (do
       else pure ct : S σ CardType)
     setCardType ct) := rfl
 
+/-- The stop sequence of a multiple-block write, named (the model writes it inline in `write`):
+`wait_not_busy(write).and_then(|_| write_byte(STOP_TRAN_TOKEN)).and_then(|_| read_byte().map(|_| ()))
+.and_then(|_| wait_not_busy(write))` — the discarded byte covers the byte a card may take (N_BR)
+before it signals busy. -/
+def stopWrite (B : BusOps σ) : S σ Unit := do
+  waitNotBusy B DEFAULT_WRITE_RETRIES
+  writeByte B (UInt8.ofNat STOP_TRAN_TOKEN)
+  let _ ← readByte B
+  waitNotBusy B DEFAULT_WRITE_RETRIES
+
 /-- The error arms of `acquire`, named: fail and forget the card type ("start over next time"). -/
 def failUninit (e : SdErr) : S σ α := fun s => (.err e, { s with cardType := none })
 
